@@ -74,7 +74,11 @@ func NewHierarchicalConjunctiveThresholdAccessStructure(levels ...*ThresholdLeve
 			return nil, ErrValue.WithMessage("thresholds must be less than or equal to the number of parties")
 		}
 
-		ls = append(ls, &ThresholdLevel{l.threshold, parties.List()})
+		// store the level's parties in a canonical (sorted) order: the set's own iteration
+		// order is unspecified and would make the encoding of the structure non-deterministic
+		sortedParties := parties.List()
+		slices.Sort(sortedParties)
+		ls = append(ls, &ThresholdLevel{l.threshold, sortedParties})
 	}
 
 	h := &HierarchicalConjunctiveThreshold{levels: ls}
